@@ -195,7 +195,8 @@ def generate() -> str:
         "except (asyncio.CancelledError, asyncio.TimeoutError)", "self._set_code_close_transport(WSCloseCode.ABNORMAL_CLOSURE)", "raise",
         "except Exception", "self._set_code_close_transport(WSCloseCode.ABNORMAL_CLOSURE)", "return True",
         "if self._waiting:", "self._close_wait = self._loop.create_future()", "reader.feed_data(WS_CLOSING_MESSAGE)",
-        "await self._close_wait",
+        "try:", "await self._close_wait",
+        "except asyncio.CancelledError", "self._set_code_close_transport(WSCloseCode.ABNORMAL_CLOSURE)", "raise",
         "if self._closing:", "self._close_transport()", "return True",
         "try:", "async with async_timeout.timeout(self._timeout):", "while True:", "msg = await reader.read()",
         "if msg.type is WSMsgType.CLOSE:", "self._set_code_close_transport(msg.data)", "return True",
@@ -218,7 +219,9 @@ def generate() -> str:
         "except asyncio.CancelledError", "self._close_code = WSCloseCode.ABNORMAL_CLOSURE", "self._response.close()", "raise",
         "except Exception", "self._close_code = WSCloseCode.ABNORMAL_CLOSURE", "self._response.close()", "return True",
         "if self._close_code:", "self._response.close()", "return True",
-        "try:", "async with async_timeout.timeout(self._timeout.ws_close):", "while True:", "msg = await self._reader.read()",
+        "try:", "async with async_timeout.timeout(self._timeout.ws_close):", "while True:",
+        "try:", "msg = await self._reader.read()",
+        "except EofStream", "if self._close_code and (not self._reader.is_eof()):", "self._response.close()", "return True", "raise",
         "if msg.type is WSMsgType.CLOSE:", "self._close_code = msg.data", "self._response.close()", "return True",
         "except asyncio.CancelledError", "self._close_code = WSCloseCode.ABNORMAL_CLOSURE", "self._response.close()", "raise",
         "except Exception", "self._close_code = WSCloseCode.ABNORMAL_CLOSURE", "self._response.close()", "return True"])
@@ -244,13 +247,13 @@ def generate() -> str:
         "try:", "self._waiting = True", "try:", "if receive_timeout:",
         "msg = await self._reader.read()", "self._waiting = False", "if self._close_wait:", "set_result(self._close_wait, None)",
         "except asyncio.TimeoutError", "raise",
-        "except EofStream", "self._close_code = WSCloseCode.OK", "await self.close()", "return WS_CLOSED_MESSAGE",
-        "except WebSocketError", "self._close_code = exc.code", "await self.close(code=exc.code)", "return WSMessageError(data=exc)",
+        "except EofStream", "if not self._closed:", "self._close_code = WSCloseCode.OK", "await self.close()", "return WS_CLOSED_MESSAGE",
+        "except WebSocketError", "if not self._closed:", "self._close_code = exc.code", "await self.close(code=exc.code)", "return WSMessageError(data=exc)",
         "except Exception", "self._set_closing(WSCloseCode.ABNORMAL_CLOSURE)", "await self.close()",
         "if msg.type not in _INTERNAL_RECEIVE_TYPES:", "return msg",
         "if msg.type is WSMsgType.CLOSE:", "self._set_closing(msg.data)", "if not self._closed and self._autoclose:",
         "await self.close(drain=False)",
-        "if msg.type is WSMsgType.CLOSING:", "self._set_closing(WSCloseCode.OK)",
+        "if msg.type is WSMsgType.CLOSING:", "if not self._closed:", "self._set_closing(WSCloseCode.OK)",
         "if msg.type is WSMsgType.PING and self._autoping:", "await self.pong(msg.data)", "continue",
         "if msg.type is WSMsgType.PONG and self._autoping:", "continue", "return msg"])
     _ordered(CLI, "ClientWebSocketResponse", "receive", [
@@ -259,9 +262,9 @@ def generate() -> str:
         "try:", "self._waiting = True", "try:", "if receive_timeout:",
         "msg = await self._reader.read()", "self._waiting = False", "if self._close_wait:", "set_result(self._close_wait, None)",
         "except (asyncio.CancelledError, asyncio.TimeoutError)", "self._close_code = WSCloseCode.ABNORMAL_CLOSURE", "raise",
-        "except EofStream", "self._close_code = WSCloseCode.OK", "await self.close()", "return WS_CLOSED_MESSAGE",
+        "except EofStream", "if not self._closed:", "self._close_code = WSCloseCode.OK", "await self.close()", "return WS_CLOSED_MESSAGE",
         "except ClientError", "self._set_closed()", "self._close_code = WSCloseCode.ABNORMAL_CLOSURE", "return WS_CLOSED_MESSAGE",
-        "except WebSocketError", "self._close_code = exc.code", "await self.close(code=exc.code)", "return WSMessageError(data=exc)",
+        "except WebSocketError", "self._close_code = WSCloseCode.ABNORMAL_CLOSURE", "await self.close(code=exc.code)", "return WSMessageError(data=exc)",
         "except Exception", "self._set_closing()", "self._close_code = WSCloseCode.ABNORMAL_CLOSURE", "await self.close()",
         "if msg.type not in _INTERNAL_RECEIVE_TYPES:", "return msg",
         "if msg.type is WSMsgType.CLOSE:", "self._set_closing()", "self._close_code = msg.data",
